@@ -131,7 +131,10 @@ class WorkflowBuilder(WorkflowBase):
             New task
         """
         mapping = {task: new_task}
-        nx.relabel_nodes(self._g, mapping, copy=False)
+        # NOTE: copy=True keeps the position of the node in the graph
+        # (relabeling in place would move it last and thereby reorder
+        # the predecessors, i.e. the arguments, of its successors)
+        self._g = nx.relabel_nodes(self._g, mapping, copy=True)
 
     def insert_workflow(
         self, other: Workflow, predecessors: Optional[Union[Task, list[Task]]] = None
